@@ -104,6 +104,9 @@ pub struct Config {
     pub outer_span: bool,
     /// C20: the user's filter is `LevelFilter::WARN` and the harness logs at WARN.
     pub warn_filter: bool,
+    /// The type-changing builder methods are applied in reverse order
+    /// (`after`, `before`, `which_scenario` instead of `which_scenario`, `before`, `after`).
+    pub reverse_builder: bool,
 }
 
 impl Default for Config {
@@ -138,6 +141,7 @@ impl Default for Config {
             k_noprogress: 4,
             outer_span: false,
             warn_filter: false,
+            reverse_builder: false,
         }
     }
 }
@@ -492,28 +496,47 @@ macro_rules! with_runner {
             base = base.fail_fast();
         }
         let base = base.steps($crate::spec::collection());
-        match (cfg.before, cfg.after, cfg.custom_which) {
-            (false, false, false) => { let $r = base; $body }
-            (true, false, false) => { let $r = base.before($crate::hs::before_hook); $body }
-            (false, true, false) => { let $r = base.after($crate::hs::after_hook); $body }
-            (true, true, false) => {
+        match (cfg.before, cfg.after, cfg.custom_which, cfg.reverse_builder) {
+            (false, false, false, _) => { let $r = base; $body }
+            (true, false, false, _) => { let $r = base.before($crate::hs::before_hook); $body }
+            (false, true, false, _) => { let $r = base.after($crate::hs::after_hook); $body }
+            (true, true, false, false) => {
                 let $r = base.before($crate::hs::before_hook).after($crate::hs::after_hook);
                 $body
             }
-            (false, false, true) => { let $r = base.which_scenario($crate::spec::custom_which_fn()); $body }
-            (true, false, true) => {
+            (true, true, false, true) => {
+                let $r = base.after($crate::hs::after_hook).before($crate::hs::before_hook);
+                $body
+            }
+            (false, false, true, _) => { let $r = base.which_scenario($crate::spec::custom_which_fn()); $body }
+            (true, false, true, false) => {
                 let $r = base.which_scenario($crate::spec::custom_which_fn()).before($crate::hs::before_hook);
                 $body
             }
-            (false, true, true) => {
+            (true, false, true, true) => {
+                let $r = base.before($crate::hs::before_hook).which_scenario($crate::spec::custom_which_fn());
+                $body
+            }
+            (false, true, true, false) => {
                 let $r = base.which_scenario($crate::spec::custom_which_fn()).after($crate::hs::after_hook);
                 $body
             }
-            (true, true, true) => {
+            (false, true, true, true) => {
+                let $r = base.after($crate::hs::after_hook).which_scenario($crate::spec::custom_which_fn());
+                $body
+            }
+            (true, true, true, false) => {
                 let $r = base
                     .which_scenario($crate::spec::custom_which_fn())
                     .before($crate::hs::before_hook)
                     .after($crate::hs::after_hook);
+                $body
+            }
+            (true, true, true, true) => {
+                let $r = base
+                    .after($crate::hs::after_hook)
+                    .before($crate::hs::before_hook)
+                    .which_scenario($crate::spec::custom_which_fn());
                 $body
             }
         }
